@@ -95,7 +95,7 @@ def load_byte(st, o, symkey, c):
         if may_overlap(st, (symkey, c), 1, rk, rn):
             return ('sym', st.fresh('region:%s' % o.id), 0, 255)
     if o.weak:
-        return ('sym', st.fresh('weak:%s' % o.id), 0, 255)
+        return ('sym', st.fresh('weak:%s+%s' % (o.id, c if not symkey else '?')), 0, 255)
     d = o.default
     if d == 'zero':
         if o.zeroed_n is None or o.zeroed_n == o.size or (not symkey and st.prove_lt(C(c), o.zeroed_n)) \
